@@ -67,6 +67,8 @@ static int g_exact = 0;
   X(alt_nochange) X(alt_trailer_only) X(alt_nontrivial) X(alt_in_fragmented_record) \
   X(alt_lossy) X(alt_absorbed) X(alt_torn_tail_exempt) X(alt_crc_collision) \
   X(alt_resume_records_checked) X(alt_multi_block_damage) X(alt_report_count_differs) \
+  X(zh_skip_total) X(zh_skip_bitflip) X(zh_skip_zero_byte) X(zh_skip_ff_byte) X(zh_skip_random_burst) X(zh_skip_zero_burst) \
+  X(zh_skip_zero_sector) X(zh_skip_at_block_start) X(zh_skip_single_byte_on_empty_record) \
   X(crc_len_align) X(crc_splits) X(crc_random_bufs) X(crc_random_bytes) X(crc_mask_values) \
   X(crc_hw_active) X(viol_suppressed)
 
@@ -502,7 +504,7 @@ static void shape_sig(char *out, size_t cap, uint64_t l0, const rec_t *recs, int
   size_t pos;
   uint64_t p = l0;
   int i, run = 0;
-  char prev[8] = "", tok[8];
+  char prev[20] = "", tok[20];
   pos = (size_t)snprintf(out, cap, "%s/%d:", l0_class(l0), l0 / B >= 2 ? 2 : (int)(l0 / B));
   for (i = from; i <= n; i++) {
     if (i < n) {
@@ -810,8 +812,9 @@ static void random_case(int64_t c) {
       int nsp = special_lens(advance(pf.len, 0, NULL, NULL) + total, sp);   /* roughly */
       len = sp[vr_uniform(&r, (uint32_t)nsp)];
     } else {
-      len = vr_skewed(&r, 20);
-      if (vr_chance(&r, 20)) len = MAXREC - vr_uniform(&r, 3);   /* up to exactly 1 MiB */
+      uint32_t u = vr_uniform(&r, 100);
+      len = vr_skewed(&r, u < 70 ? 12 : u < 95 ? 17 : 20);       /* skewed small, tail up to 1 MiB */
+      if (vr_chance(&r, 4)) len = MAXREC - vr_uniform(&r, 3);    /* up to exactly 1 MiB */
     }
     if (len > MAXREC) len = MAXREC;
     if (total + len > (3u << 19) && i > 0) { n = i; break; }       /* keep a case <= ~1.5 MiB (+ one record) */
@@ -1080,7 +1083,7 @@ static void trunc_case(int64_t c) {
     case_rng(&r, 4, c);
     for (i = 0; i < 2000; i++) g_mark[vr_uniform(&r, (uint32_t)size + 1)] = 1;
     for (cut = 0; cut <= size; cut++)
-      if (g_mark[cut]) check_cut(cut, 1);
+      if (g_mark[cut]) check_cut(cut, (mix64(cut) & 7) == 0);   /* reference decoder on 1/8 of the cuts */
   }
   {
     char sig[256];
@@ -1140,7 +1143,7 @@ static void evaluate_alteration(int kind, size_t a, size_t b, uint32_t param) {
   size_t size = G.dst.size, i, first = (size_t)-1, last = 0, efirst = (size_t)-1, elast = 0;
   char why[300], sig[320], ctx[700];
   rc_logresult_t ref;
-  int j, k, nmatched = 0, lost, fi, nontriv, infrag, alien = -1;
+  int j, k, nmatched = 0, lost, fi, nontriv, infrag, alien = -1, k0, tail, headn, headmax;
   uint64_t resume_from;
 
   for (i = a; i < b; i++) {
@@ -1185,23 +1188,64 @@ static void evaluate_alteration(int kind, size_t a, size_t b, uint32_t param) {
   rc_log_read(g_work, size, &ref);
   CNT(records_read_ref, ref.nrecs);
 
-  /* (i) returned records form a subsequence of the written records */
+  /* Records are in file order, so the records that lie entirely in blocks after the last
+   * damaged block are a SUFFIX written[k0..n).  A reader that resumes at the next intact
+   * block returns  S ++ written[k0..n)  where S is a subsequence of written[0..k0).
+   * (Matching by suffix first keeps records with equal contents, e.g. empty ones, apart.) */
   if (G.nrecs > g_matchedcap) { g_matchedcap = G.nrecs + 64; g_matched = realloc(g_matched, (size_t)g_matchedcap * sizeof(int)); }
   memset(g_matched, 0, (size_t)G.nrecs * sizeof(int));
+  resume_from = ((uint64_t)elast / B + 1) * B;
+  k0 = G.nrecs;
+  while (k0 > 0 && G.recs[k0 - 1].start >= resume_from) k0--;
+  tail = G.nrecs - k0;
+  CNT(alt_resume_records_checked, tail);
+  headn = RR.n;
+  headmax = G.nrecs;
+  if (tail > 0) {
+    /* (ii) reading resumes at the next intact block */
+    int bad = -1;
+    if (RR.n < tail) bad = k0;
+    for (k = 0; bad < 0 && k < tail; k++) {
+      int ri = RR.n - tail + k, wi = k0 + k;
+      if (RR.len[ri] != G.recs[wi].len || (RR.len[ri] && memcmp(RR.arena + RR.off[ri], G.recs[wi].data, RR.len[ri]) != 0))
+        bad = wi;
+    }
+    if (bad >= 0) {
+      viol("no-resume-after-damage",
+           "the last %d written records (#%d..#%d) lie entirely in blocks after the last damaged block (damage ends in block "
+           "%lu, record #%d starts at %llu in block %llu), so the reader's output must end with exactly these; it does not: "
+           "mismatch at written record #%d [%llu,%llu) len %lu; returned %d of %d records, reports %d. %s",
+           tail, k0, G.nrecs - 1, (unsigned long)(elast / B), k0, (unsigned long long)G.recs[k0].start,
+           (unsigned long long)(G.recs[k0].start / B), bad, (unsigned long long)G.recs[bad].start,
+           (unsigned long long)G.recs[bad].end, (unsigned long)G.recs[bad].len, RR.n, G.nrecs, RR.calls, ctx);
+    } else {
+      for (k = k0; k < G.nrecs; k++) g_matched[k] = 1;
+      nmatched += tail;
+      headn = RR.n - tail;
+      headmax = k0;
+    }
+  }
+
+  /* (i) the (remaining) returned records form a subsequence of the written records */
   j = 0;
-  for (k = 0; k < RR.n; k++) {
+  for (k = 0; k < headn; k++) {
     int i2;
-    for (i2 = j; i2 < G.nrecs; i2++)
+    for (i2 = j; i2 < headmax; i2++)
       if (G.recs[i2].len == RR.len[k] && (RR.len[k] == 0 || memcmp(G.recs[i2].data, RR.arena + RR.off[k], RR.len[k]) == 0))
         break;
-    if (i2 == G.nrecs) {
+    if (i2 == headmax) {
       /* not a written record at or after position j.  A genuine CRC-32C collision (validly
        * checksummed garbage) is accepted by ANY conforming reader: diagnose via the reference. */
       if ((size_t)k < ref.nrecs && ref.recs[k].len == RR.len[k] &&
           (RR.len[k] == 0 || memcmp(ref.recs[k].data, RR.arena + RR.off[k], RR.len[k]) == 0)) {
-        CNT(alt_crc_collision, 1);
-        vh_note("C15 alter: validly checksummed alien record accepted by both readers (CRC collision): %s", ctx);
-        continue;
+        int i3, written = 0;
+        for (i3 = 0; i3 < G.nrecs && !written; i3++)
+          written = G.recs[i3].len == RR.len[k] && (RR.len[k] == 0 || memcmp(G.recs[i3].data, RR.arena + RR.off[k], RR.len[k]) == 0);
+        if (!written) {
+          CNT(alt_crc_collision, 1);
+          vh_note("C15 alter: validly checksummed alien record accepted by both readers (CRC collision): %s", ctx);
+          continue;
+        }
       }
       if (alien < 0) alien = k;
       continue;
@@ -1223,22 +1267,6 @@ static void evaluate_alteration(int kind, size_t a, size_t b, uint32_t param) {
          earlier >= 0 ? (snprintf(why, sizeof(why), "%d", earlier), why) : "", RR.n, RR.calls, ctx);
   }
 
-  /* (ii) reading resumes at the next intact block */
-  resume_from = ((uint64_t)elast / B + 1) * B;
-  for (k = 0; k < G.nrecs; k++) {
-    if (G.recs[k].start >= resume_from) {
-      CNT(alt_resume_records_checked, 1);
-      if (!g_matched[k]) {
-        viol("no-resume-after-damage",
-             "written record #%d [%llu,%llu) (len %lu) lies entirely in blocks after the last damaged block (damage ends in "
-             "block %lu, record starts in block %llu) but was not returned; returned %d of %d records, reports %d. %s",
-             k, (unsigned long long)G.recs[k].start, (unsigned long long)G.recs[k].end, (unsigned long)G.recs[k].len,
-             (unsigned long)(elast / B), (unsigned long long)(G.recs[k].start / B), RR.n, G.nrecs, RR.calls, ctx);
-        break;
-      }
-    }
-  }
-
   /* (iii) a loss must be reported */
   lost = G.nrecs - nmatched;
   if (lost > 0) CNT(alt_lossy, 1); else CNT(alt_absorbed, 1);
@@ -1249,10 +1277,9 @@ static void evaluate_alteration(int kind, size_t a, size_t b, uint32_t param) {
     while (firstlost < G.nrecs && g_matched[firstlost]) firstlost++;
     if (d == D_TORN_TAIL) {
       /* legal cut of a valid log: exactly the records wholly before `where` must be there */
-      int consistent = 1;
-      for (k = 0; k < G.nrecs; k++)
-        if (g_matched[k] != (G.recs[k].end <= where)) consistent = 0;
-      if (consistent && efirst >= where) {
+      int m = 0;
+      while (m < G.nrecs && G.recs[m].end <= where) m++;
+      if (rres_equal(&RR, G.recs, m, why, sizeof(why)) && efirst >= where) {
         CNT(alt_torn_tail_exempt, 1);
       } else {
         viol("silent-drop",
@@ -1262,6 +1289,10 @@ static void evaluate_alteration(int kind, size_t a, size_t b, uint32_t param) {
              (unsigned long long)where, (unsigned long)efirst, RR.calls, (unsigned long long)RR.bytes, ctx);
       }
     } else if (d == D_ZERO_HEADER) {
+      CNT(zh_skip_total, 1);
+      cn_val[CN_zh_skip_bitflip + kind]++;
+      if (where % B == 0) CNT(zh_skip_at_block_start, 1);
+      if (kind <= K_FF) CNT(zh_skip_single_byte_on_empty_record, 1);
       viol("zero-header-silent-skip",
            "%d written records lost (first #%d [%llu,%llu) len %lu) and the reporter was never told about dropped bytes: the "
            "alteration left an all-zero header (length 0, type 0) at a physical-record boundary, file offset %llu (block %llu "
